@@ -35,16 +35,27 @@ class Ctx:
         # a model answer containing UNMODELLED (panic site 99 of Model/Builtins.v: a builtin, or an arm of one,
         # that needs libm/rand/time and has no model) is not an answer: such a case is implementation-only
         if self.skip is None:
-            return [SKIPPED if "UNMODELLED" in l else l for l in C.run_model(self.model_exe, cases, **self.kw)]
+            return [SKIPPED if _no_answer(l) else l for l in C.run_model(self.model_exe, cases, **self.kw)]
         keep = [i for i, c in enumerate(cases) if not self.skip(c)]
         lines = C.run_model(self.model_exe, [cases[i] for i in keep], **self.kw)
         out = [SKIPPED] * len(cases)
         for i, l in zip(keep, lines):
-            out[i] = SKIPPED if "UNMODELLED" in l else l
+            out[i] = SKIPPED if _no_answer(l) else l
         return out
 
 
 SKIPPED = "SKIPPED"
+MODEL_TIMEOUTS = [0]
+
+
+def _no_answer(line):
+    """UNMODELLED: no model for this builtin/arm.  TIMEOUT/NOTRUN: the extracted model (slower than the
+    implementation by orders of magnitude on large data) did not finish within the runner's per-case limit:
+    that is not an answer of the model, the case is implementation-only; counted in the evidence"""
+    if line.startswith(("TIMEOUT", "NOTRUN")):
+        MODEL_TIMEOUTS[0] += 1
+        return True
+    return "UNMODELLED" in line
 
 
 def shrink_case(mod, ctx, case, still_fails, budget=400):
@@ -269,7 +280,7 @@ def run_property(mod, tier="quick", seed=0, replay=None):
         "rule": mod.RULE, "samples": samples,
         "exhaustive": bool(meta.get("exhaustive", False)),
         "profiles": profiles,
-        "kernel_crosscheck": len(kidx),
+        "kernel_crosscheck": len(kidx), "model_timeouts_not_compared": MODEL_TIMEOUTS[0],
         "disagreements_checked": len(disagreements),
         "oracle_failures": len(oracle_fail),
         "result_kinds": kinds,
